@@ -296,6 +296,8 @@ class EncoderSelector:
                 # Get rows with the minimum imputation ratio
                 min_imp_ratio = np.min(df_.imp_ratio)
                 min_imp_ratio_mask = df_.imp_ratio == min_imp_ratio
+                if not np.any(min_imp_ratio_mask):  # Imputation ratios not known (NaN): no matrices could be counted
+                    return
 
                 # Within these rows, get the row with the maximum information index
                 i_max_inf_idx = np.argmax(df_.inf_idx[min_imp_ratio_mask])
